@@ -56,6 +56,8 @@ class Interp:
         id_args = []
         off = 1
         for a in args:
+            if not is_sym(a) and np.asarray(a).dtype.kind == "f":
+                a = self.lift_arr(a)        # concrete float data next to symbolic data (e.g. jnp.empty + .at[].set)
             if is_sym(a):
                 ids = np.arange(off, off + a.size, dtype=np.int64).reshape(a.shape)
                 pools.append((off, a.reshape(-1)))
